@@ -170,8 +170,46 @@ func (e *Exec) step(f *frame, ins ssa.Instruction) {
 	case *ssa.SliceToArrayPointer:
 		panic(unsupported{"SliceToArrayPointer"})
 	case *ssa.RunDefers:
-		// functions under analysis do not defer; deferred calls are rejected at Defer.
-	case *ssa.Defer, *ssa.Go, *ssa.Select, *ssa.Send, *ssa.MakeChan:
+		// deferred calls run in LIFO order (no recover: a Go panic ends the path
+		// as a violation before this point)
+		for len(f.defers) > 0 {
+			d := f.defers[len(f.defers)-1]
+			f.defers = f.defers[:len(f.defers)-1]
+			d()
+		}
+	case *ssa.Defer:
+		cc := x.Call
+		args := make([]Value, 0, len(cc.Args))
+		for _, a := range cc.Args {
+			args = append(args, e.get(f, a))
+		}
+		if cc.IsInvoke() {
+			recv, _ := e.get(f, cc.Value).(*IfaceV)
+			m := cc.Method
+			f.defers = append(f.defers, func() {
+				if recv == nil {
+					e.goPanic("nil", "deferred method call on nil interface")
+				}
+				e.invoke(recv, m, args)
+			})
+			return
+		}
+		switch fn := cc.Value.(type) {
+		case *ssa.Builtin:
+			if fn.Name() == "recover" {
+				panic(unsupported{"recover"})
+			}
+			f.defers = append(f.defers, func() { e.builtin(fn, args, &cc, x) })
+		case *ssa.Function:
+			f.defers = append(f.defers, func() { e.callFunc(fn, args, nil) })
+		default:
+			fv, _ := e.get(f, cc.Value).(*FuncV)
+			if fv == nil {
+				panic(unsupported{"defer of nil function"})
+			}
+			f.defers = append(f.defers, func() { e.callFunc(fv.Fn, args, fv.Env) })
+		}
+	case *ssa.Go, *ssa.Select, *ssa.Send, *ssa.MakeChan:
 		panic(unsupported{fmt.Sprintf("%T", ins)})
 	default:
 		panic(unsupported{fmt.Sprintf("instruction %T", ins)})
